@@ -927,7 +927,7 @@ pub fn readonly_dir_phase(ws: &WsCase, opts: &PushOpts, cx: &mut CaseCtx) -> Opt
     ws::link_tree(&root, &twin);
     ws::chown_tree(&base, 65534);
     let _ = std::fs::set_permissions(&base, std::os::unix::fs::PermissionsExt::from_mode(0o777));
-    let dpath = root.join(&dir);
+    let dpath = root.join(ws::os(&dir));
     let _ = std::fs::set_permissions(&dpath, std::os::unix::fs::PermissionsExt::from_mode(0o555));
     let twin_before = ws::snapshot(&twin);
     let obs = push(cx, &root, opts, &ws::RunOpts { uid: Some(65534), ..Default::default() });
